@@ -618,6 +618,54 @@ func (e *Engine) evQuant(kind string, c *ast.CallExpr, st *State) Value {
 	e.spec--
 	e.boundVars = e.boundVars[:len(e.boundVars)-1]
 	rng := and(e.le(lo.T, bv), e.lt(bv, hi.T))
+	if e.c != nil && e.c.Opts["absindex"] != "" && !e.bv {
+		// `opt absindex yes`: when the body reads one slice at the bound position - (select A (+ OFF k)) - the
+		// quantifier is restated over the absolute position J = OFF + k. The instances the solver needs are then
+		// found by matching (select A J) against any read of the array, whatever arithmetic its index carries
+		// (element shifts by copy or append); with the relative form the index has to match (+ OFF k) syntactically.
+		needle := " " + bv + ")"
+		offs := map[string]bool{}
+		for i := 0; ; {
+			j := strings.Index(body.T[i:], needle)
+			if j < 0 {
+				break
+			}
+			end := i + j
+			// walk back to the "(+ " that opens this application
+			depth, k := 0, end-1
+			for ; k >= 0; k-- {
+				if body.T[k] == ')' {
+					depth++
+				} else if body.T[k] == '(' {
+					if depth == 0 {
+						break
+					}
+					depth--
+				}
+			}
+			if k >= 0 && strings.HasPrefix(body.T[k:], "(+ ") {
+				offs[body.T[k+3:end]] = true
+			}
+			i = end + len(needle)
+		}
+		if len(offs) == 1 {
+			var off string
+			for o := range offs {
+				off = o
+			}
+			abs := bv + "!abs"
+			rel := sx("-", abs, off)
+			bt := strings.ReplaceAll(body.T, "(+ "+off+" "+bv+")", abs)
+			bt = strings.ReplaceAll(bt, bv, "\x00")
+			bt = strings.ReplaceAll(bt, "\x00!abs", abs)
+			bt = strings.ReplaceAll(bt, "\x00", rel)
+			r2 := and(e.le(lo.T, rel), e.lt(rel, hi.T))
+			if kind == "forall" {
+				return Value{fmt.Sprintf("(forall ((%s %s)) %s)", abs, e.isort(), implies(r2, bt)), types.Typ[types.Bool]}
+			}
+			return Value{fmt.Sprintf("(exists ((%s %s)) %s)", abs, e.isort(), and(r2, bt)), types.Typ[types.Bool]}
+		}
+	}
 	if kind == "forall" {
 		return Value{fmt.Sprintf("(forall ((%s %s)) %s)", bv, e.isort(), implies(rng, body.T)), types.Typ[types.Bool]}
 	}
